@@ -139,6 +139,16 @@ pub fn gen_noise_line(t: &mut Tape, table: &DataTable) -> Option<String> {
         options.push(format!("{{{}}}", table.cols.iter().map(|c| format!("\"{}\": null", c.0)).collect::<Vec<_>>().join(", ")));
         // every field of the wrong JSON type (object) -> NULL in every column
         options.push(format!("{{{}}}", table.cols.iter().map(|c| format!("\"{}\": {{}}", c.0)).collect::<Vec<_>>().join(", ")));
+        // near-misses: a complete, fully filled document followed by something else is not one JSON document
+        {
+            let values: Vec<V> = table.cols.iter().map(|(_, ty)| crate::props::c04::small_value(t, *ty)).collect();
+            let full = table.line(&values, t);
+            let junk = *t.pick(&[" # comment", ",", "}", " x", "]", " 1", "{}"]);
+            options.push(format!("{}{}", full, junk));
+            options.push(format!("{}{}", full, full));
+            options.push(format!("x{}", full));
+            options.push(full[..full.len() - 1].to_string());
+        }
         if let Some(nn) = table.not_null {
             // all other columns filled, the NOT NULL one missing
             let fields: Vec<String> = table
